@@ -23,7 +23,7 @@ RULE = ('A case is (module, optimize); the decoded journal is compared element-w
         'axiom or two claims.')
 ASSUMPTIONS = ['a shared submodule reached through two import edges is declared twice (its axioms are expected once per edge)']
 FLOORS = {'quick': {'cases': 1500, 'journals_compared': 1400, 'modules_with_10_symbols': 30, 'oversize_refused': 4, 'oversize_refused_by_main': 4, 'main_entry_point_runs': 12, 'exactly_256_ids_ok': 2, 'optimize_pairs_compared': 700,
-                    'modules_with_imports': 200, 'modules_with_axiomless_middle_import': 50, 'modules_with_duplicate_axiom_attempt': 50}}
+                    'modules_with_imports': 200, 'declaration_from_generator_record': 1000, 'modules_with_axiomless_middle_import': 50, 'modules_with_duplicate_axiom_attempt': 50}}
 FLOORS['thorough'] = dict(FLOORS['quick'], cases=30000, journals_compared=29000)
 
 
@@ -44,7 +44,10 @@ def compare_journal(ctx, b, g, c, p, opt, tagline):
         ctx.violation('public_files_do_not_execute', f'the reference machine rejects the public files ({o2[1]})', dict(w, reject=o2[1:3]))
         return None
     fwd, bwd = {}, {}
-    exp_ax = [tb.norm_py(tb.of_repo(a)) for a in declared_axioms(b.mod)]
+    own = b.declared_axioms() if hasattr(b, 'declared_axioms') else None
+    if own is not None:
+        ctx.count('declaration_from_generator_record')
+    exp_ax = [tb.norm_py(tb.of_repo(a)) for a in (own if own is not None else declared_axioms(b.mod))]
     got_ax = [tb.norm_py(a) for a in m.journal['axioms']]
     exp_cl = [tb.norm_py(tb.of_repo(a)) for a in b.mod.get_claims()]
     got_cl = [tb.norm_py(a) for a in reversed(m.journal['claims'])]
